@@ -173,6 +173,16 @@ def generated_models():
         m.append(('three item definitions in a ring (%s)' % shown, itemdef('tA', 'tB', ws) + itemdef('tB', 'tC', ws) + itemdef('tC', 'tA', ws) + indata('I', 'tB') + decision('A', req_in=['I'], text='I')))
     m.append(('item definition containing itself through a component', '  <itemDefinition name="tA"><itemComponent name="next"><typeRef>tA</typeRef></itemComponent></itemDefinition>\n' + indata('I', 'tA') + decision('A', req_in=['I'], text='I')))
     m.append(('item definition containing itself through a collection component', '  <itemDefinition name="tA"><itemComponent name="kids" isCollection="true"><typeRef>tA</typeRef></itemComponent></itemDefinition>\n' + indata('I', 'tA') + decision('A', req_in=['I'], text='I')))
+    # two elements with the same identifier, one of them on a cycle: the builders look such elements up by identifier (the first or the last one,
+    # depending on the builder), so a cycle through either copy must be found
+    m.append(('two knowledge models with one identifier, the first requires itself', bkm('K', ['K']) + bkm('K') + decision('A', req_know=['K'], text='K()')))
+    m.append(('two knowledge models with one identifier, the second requires itself', bkm('K') + bkm('K', ['K']) + decision('A', req_know=['K'], text='K()')))
+    m.append(('two decisions with one identifier, the first requires itself', decision('A', req_dec=['A']) + decision('A', text='2')))
+    m.append(('two decisions with one identifier, the second requires itself', decision('A', text='2') + decision('A', req_dec=['A'])))
+    m.append(('two decisions with one identifier, the first requires a decision that requires it', decision('A', req_dec=['B']) + decision('A', text='2') + decision('B', req_dec=['A'])))
+    m.append(('a decision and a knowledge model with one identifier, the knowledge model requires it', decision('X', req_know=['X'], text='1') + bkm('X', ['X'])))
+    m.append(('two item definitions with one name, the first refers to itself', itemdef('tA', 'tA') + itemdef('tA', 'number') + indata('I', 'tA') + decision('A', req_in=['I'], text='I')))
+    m.append(('two item definitions with one name, the second refers to itself', itemdef('tA', 'number') + itemdef('tA', 'tA') + indata('I', 'tA') + decision('A', req_in=['I'], text='I')))
     return [(what, head + body + tail) for (what, body) in m]
 
 
